@@ -6,7 +6,9 @@ use petgraph::Direction;
 use petgraph::prelude::StableGraph;
 use petgraph::stable_graph::NodeIndex;
 
-use crate::compiler::analyses::call_graph::borrow_checker::complex::complex_borrow_check;
+use crate::compiler::analyses::call_graph::borrow_checker::complex::{
+    complex_borrow_check, ordering_stalemates,
+};
 use crate::compiler::analyses::call_graph::borrow_checker::move_while_borrowed::{
     captured_nodes, move_while_borrowed,
 };
@@ -148,6 +150,18 @@ impl OrderedCallGraph {
         }
         // If there are no "obvious" violations, we check for more subtle ones!
         let call_graph = complex_borrow_check(
+            call_graph,
+            copy_checker,
+            component_db,
+            computation_db,
+            krate_collection,
+            diagnostics,
+        );
+        if diagnostics.len() > n_diagnostics {
+            return Err(());
+        }
+        // Last but not least, we make sure that the nodes can actually be ordered.
+        let call_graph = ordering_stalemates(
             call_graph,
             copy_checker,
             component_db,
